@@ -37,7 +37,7 @@ ENGINES = ("sync", "async")
 
 ATOMS1 = ["T", "F", "R", "M", "Pt", "Pf", "Pc", "Sa", "Sp", "Ss", "Si"]
 ATOMS2 = ["T", "F", "R", "M", "Sa", "Si"]
-POSITIONS = ["sole", "first", "second", "parent", "choose", "check"]
+POSITIONS = ["sole", "first", "second", "parent", "second-p", "parent-p", "choose", "check"]
 
 
 # ---------------------------------------------------------------- formulas
@@ -162,6 +162,13 @@ def make_cfg(gcfg: Any, key: str, pos: str) -> Dict[str, Any]:
         c1["on"]["E"] = [tr("mk:blocked", "gF"), tr("mk:fire", gcfg), tr("mk:other")]
     elif pos == "parent":
         c1["on"]["E"] = [tr("mk:blocked", "gF")]
+        p["on"]["E"] = [tr("mk:fire", gcfg)]
+        root_on["E"] = tr("mk:other")
+    elif pos == "second-p":
+        # the blocked candidate carries the SAME guard name as the parameterised atoms (gP), with params that make it false
+        c1["on"]["E"] = [tr("mk:blocked", {"type": "gP", "params": {"v": False}}), tr("mk:fire", gcfg), tr("mk:other")]
+    elif pos == "parent-p":
+        c1["on"]["E"] = [tr("mk:blocked", {"type": "gP", "params": {"v": False}})]
         p["on"]["E"] = [tr("mk:fire", gcfg)]
         root_on["E"] = tr("mk:other")
     elif pos == "choose":
